@@ -366,6 +366,36 @@ theorem decorate_preserves_any (url : Bytes) (kid : Nat) (nonce out : Bytes) (u 
       rw [← hs]
       exact decorate_preserves_other url kid nonce out u sc hp hs (parse_other_scheme url u sc hp hs) hd hlen
 
+/-- **decorate_canonical.** The decorated URL is in canonical form: what a receiver parses out of
+it prints back to exactly the text that was sent, so client and server agree on the bytes of the
+request line whichever of the two forms they keep. -/
+theorem decorate_canonical (url : Bytes) (kid : Nat) (nonce out : Bytes) (u : Parts)
+    (hp : parse url = .ok u) (hd : decorate url kid nonce = .ok out) (hlen : out.length ≤ 65534) :
+    ∃ u2, parse out = .ok u2 ∧ print u2 = out := by
+  refine ⟨_, decorate_preserves_any url kid nonce out u hp hd hlen, ?_⟩
+  obtain ⟨u', hu', hout⟩ := (decorate_text url kid nonce out).1 hd
+  rw [hp] at hu'
+  have := R.ok.inj hu'; subst this
+  rw [hout]
+  simp [print, querySuffix, pathOrSlash_idem]
+
+/-- **decorate_twice.** Decorating an already decorated URL keeps the first `cup2key` parameter in
+place and appends a second one (the library never does this; the theorem pins down that an
+existing `cup2key` in the configured URL is treated like any other query text). -/
+theorem decorate_twice (url : Bytes) (k1 k2 : Nat) (n1 n2 out1 out2 : Bytes) (u : Parts)
+    (hp : parse url = .ok u) (hd1 : decorate url k1 n1 = .ok out1) (hl1 : out1.length ≤ 65534)
+    (hd2 : decorate out1 k2 n2 = .ok out2) :
+    out2 = out1 ++ 38 :: (cup2keyName ++ 61 :: Cup.cup2key k2 n2) := by
+  have h1 := decorate_preserves_any url k1 n1 out1 u hp hd1 hl1
+  obtain ⟨u1, hu1, ho1⟩ := (decorate_text url k1 n1 out1).1 hd1
+  rw [hp] at hu1
+  have := R.ok.inj hu1; subst this
+  obtain ⟨u2, hu2, ho2⟩ := (decorate_text out1 k2 n2 out2).1 hd2
+  rw [h1] at hu2
+  have := R.ok.inj hu2; subst this
+  rw [ho2, ho1]
+  simp [queryWith, pathOrSlash_idem, List.append_assoc]
+
 /-! ### Non-vacuity -/
 
 -- "ftp+x" is a generic scheme; "Http" is not
